@@ -753,6 +753,7 @@ class Exec:
         if len(e.generators) != 1 or e.generators[0].is_async: return V('opaque')      # nested comprehension: no information
         g = e.generators[0]
         src = self.ev(g.iter, st)
+        if src.kind == 'comp' and not self.dry: src = self.materialise(st, src)        # a comprehension over a comprehension: name the inner list
         return V('comp', None, src=src, target=g.target, elt=e.elt, conds=g.ifs, st=st, settype=False)
 
     def e_SetComp(self, e, st):
@@ -900,8 +901,9 @@ class Exec:
             j = self.fresh(I, 'qj'); sq = args[0].t
             rng = z3.And(0 <= j, j < z3.Length(sq))
             return VB(z3.Exists([j], z3.And(rng, sq[j])) if name == 'any' else z3.ForAll([j], z3.Implies(rng, sq[j])))
+        if name == 'sum' and len(args) == 1 and args[0].kind == 'comp' and not args[0].x['conds']: args = [self.materialise(st, args[0])]
         if name == 'sum' and len(args) == 1 and args[0].kind == 'seq' and args[0].x['ek'].kind in ('real', 'num'):
-            return VR(SUMSEQ(args[0].t))
+            return V(args[0].x['ek'].kind, SUMSEQ(args[0].t))       # a sum of numeric values is a numeric value
         if name in IDENTITY_FUNCS:
             a = args[0]
             if a.kind == 'int' and name in ('sympify', 'ssympify'): return V('num', z3.ToReal(a.t), integral=True)
@@ -1101,6 +1103,8 @@ class Exec:
             d = (self.c.get('empty_kinds') or {}).get(ast.unparse(n.targets[0]))     # sort of an initially empty container, from the contract
             if isinstance(d, V): v = d
             elif d is not None: v = V(d.kind, z3.Empty(d.sort()), ek=d.x['elem'])
+        if v.kind == 'comp' and len(n.targets) == 1 and ast.unparse(n.targets[0]) in (self.c.get('materialise') or ()):
+            v = self.materialise(st, v)              # the contract talks about this list: name it
         for t in n.targets: self.store(t, v, st)
         return [st]
 
